@@ -9,6 +9,7 @@
 -/
 import AgpTpf.Proofs.C02KRes
 import AgpTpf.Proofs.C02KRows
+import AgpTpf.Properties.C18
 namespace AgpTpf.C02
 open AgpTpf OverlapResult
 open AgpTpf.C18 (Inv ids rowsLength_nil rowsLength_cons rowsLength_append rowsLength_singleton)
@@ -86,7 +87,7 @@ theorem SafeKept.congr {src : List Row} {err M : Int} {o o' : OverlapResult} (h 
 
 theorem safeKept_lookup {src : List Row} {bait : Fragment} {o : OverlapResult} (err M : Int) (hlen : NonNeg src)
     (h : findOverlaps src bait = .ok (some o)) : SafeKept src err M o := by
-  have hb : o.bait = bait := (C18.findOverlaps_spec h).choose_spec.choose_spec.2.2.2.2.2.2.2
+  obtain ⟨_, _, _, _, _, _, _, _, _, hb⟩ := C18.findOverlaps_spec h
   intro X f Y hsrc _ h2 _ _
   rw [hb] at h2 ⊢
   have hXnn := rowsLength_nonneg (hlen.of_eq_append3 hsrc).1
@@ -195,5 +196,21 @@ theorem safeKept_trimFragment {src : List Row} {err M : Int} {o o' : OverlapResu
   constructor
   · rcases e1 with e1 | ⟨_, e1⟩ <;> omega
   · rcases e2 with e2 | ⟨_, e2⟩ <;> omega
+
+theorem startB_bound {o o' : OverlapResult} {a err : Int} (ha : overhangIfStartRemoved o = .ok a) (hgt : a > -3 * err)
+    (h : discardStart o = .ok o') : o'.start < o.bait.start + 3 * err := by
+  obtain ⟨_, _, _, _, _, _, hb⟩ := discardStart_full h
+  obtain ⟨o'', h'', hx⟩ := C18.overhangIfStartRemoved_eq ha
+  rw [h] at h''; cases h''
+  simp only [startOverhang, hb] at hx
+  omega
+
+theorem endB_bound {o o' : OverlapResult} {a err : Int} (ha : overhangIfEndRemoved o = .ok a) (hgt : a > -3 * err)
+    (h : discardEnd o = .ok o') : o.bait.stop - 3 * err < o'.stop := by
+  obtain ⟨_, _, _, _, _, _, hb⟩ := discardEnd_full h
+  obtain ⟨o'', h'', hx⟩ := C18.overhangIfEndRemoved_eq ha
+  rw [h] at h''; cases h''
+  simp only [endOverhang, hb] at hx
+  omega
 
 end AgpTpf.C02
